@@ -43,8 +43,8 @@ def q_ins(tag, n):
 
 
 def q_make(tag, n):
-    """the (w, x, y, z) constructor takes w first"""
-    return '%s(%sw, %sx, %sy, %sz)' % (q_t(tag), n, n, n, n)
+    """qua::wxyz(w, x, y, z) takes w first in every configuration (the 4-argument constructor takes x first under GLM_FORCE_QUAT_DATA_XYZW)"""
+    return '%s::wxyz(%sw, %sx, %sy, %sz)' % (q_t(tag), n, n, n, n)
 
 
 def q_store(var, out='out', base=0):
@@ -293,6 +293,12 @@ F_DECIDED = ('glm_quat_lerp_f32',)
 for fn, real, ens, kw in fcontracts:
     if fn in F_DECIDED or os.environ.get('C13_TRY_UNDECIDED') == '1':
         P.contract(fn, real, ensures=ens, build=flatF, unwind=2, backends=('sat',), timeout=600, uf_float=('fmul', 'fdiv'), tier='thorough', **kw)
+
+# GLM_FORCE_QUAT_DATA_XYZW only changes the argument order of the 4-argument quaternion constructor; library code has to build quaternions with
+# qua::wxyz(), so no result may change: every shim of this module, extracted under that macro, is bit-identical to its default extraction
+xyzw = P.build(d, 'flat', defines=['GLM_ENABLE_EXPERIMENTAL', 'GLM_FORCE_QUAT_DATA_XYZW'], tag='c13_xyzw_ctor')
+same_as_build_contracts(P, d, xyzw, flat.tag, [n for n in d.order if not n.endswith('_f64')], 'GLM_FORCE_QUAT_DATA_XYZW (constructor argument order)')
+same_as_build_contracts(P, d, xyzw, flat.tag, [n for n in d.order if n.endswith('_f64')], 'GLM_FORCE_QUAT_DATA_XYZW (constructor argument order)', tier='thorough')
 
 P.level_text = ('over the reals (machine arithmetic treated as mathematical): the real-valued function computed by the code clang extracts from '
                 '/repo satisfies, for ALL unit quaternions x, y, ALL real t and ALL integer spin counts k (float and double instantiations): '
